@@ -506,13 +506,14 @@ class AsyncHTTP2Connection(AsyncConnectionInterface):
             if read_required:
                 events = await self._read_incoming_data(request)
                 self._reads_completed += 1
+                # What has arrived for the streams, and for the connection, is
+                # filed first. Handling a change of settings involves awaiting,
+                # and if this flow of control is cancelled there the events
+                # that other streams are waiting for must not be lost with it.
+                settings_changes = []
                 for event in events:
                     if isinstance(event, h2.events.RemoteSettingsChanged):
-                        async with Trace(
-                            "receive_remote_settings", logger, request
-                        ) as trace:
-                            await self._receive_remote_settings_change(event)
-                            trace.return_value = event
+                        settings_changes.append(event)
 
                     elif isinstance(
                         event,
@@ -528,6 +529,16 @@ class AsyncHTTP2Connection(AsyncConnectionInterface):
 
                     elif isinstance(event, h2.events.ConnectionTerminated):
                         self._connection_terminated = event
+
+                for event in settings_changes:
+                    # The h2 state has applied the new settings already. Our own
+                    # bookkeeping has to follow, whatever happens to this request.
+                    with AsyncShieldCancellation():
+                        async with Trace(
+                            "receive_remote_settings", logger, request
+                        ) as trace:
+                            await self._receive_remote_settings_change(event)
+                            trace.return_value = event
 
         await self._write_outgoing_data(request)
 
